@@ -238,6 +238,10 @@ func sortMsiFiles(files []*comdoc.DirEnt) {
 		if b.NameLength < n {
 			n = b.NameLength
 		}
+		if n > uint16(len(a.NameRunes)) {
+			// the length comes from the file; there are no more characters than this
+			n = uint16(len(a.NameRunes))
+		}
 		// do a comparison of the utf16 in its original LE form
 		for k := uint16(0); k < n; k++ {
 			x, y := a.NameRunes[k], b.NameRunes[k]
